@@ -10,6 +10,10 @@ type GlobCache struct {
 	// m maps patterns to compiled glob matchers.
 	m sync.Map
 
+	// mu guards l, h and n and serializes additions to and
+	// evictions from m. Lookups of cached patterns do not take it.
+	mu sync.Mutex
+
 	// l contains the added patterns and serves as an LRU cache.
 	// l has a fixed size and is initialized in the constructor.
 	l []string
@@ -41,6 +45,14 @@ func (c *GlobCache) Get(pattern string) (glob.Glob, error) {
 	glbCompiled, err := glob.Compile(pattern)
 	if err != nil {
 		return nil, err
+	}
+
+	c.mu.Lock()
+	defer c.mu.Unlock()
+
+	// another goroutine may have added the pattern in the meantime
+	if glb, ok := c.m.Load(pattern); ok {
+		return glb.(glob.Glob), nil
 	}
 
 	// if the LRU buffer is not full just append
